@@ -2,7 +2,7 @@
 from engines.arena_prop import run_arena_property
 
 def run(ctx):
-    return run_arena_property(ctx, ["BumpProof.Props.C03"],
+    return run_arena_property(ctx, ["BumpProof.Props.C03", "BumpProof.Props.Hist2@C03"],
         runs_quick=[('scopes', 150, 120), ('aligned', 50, 100)],
         runs_thorough=[('scopes', 6000, 250), ('aligned', 2000, 200), ('claims', 2000, 200)],
         fields=(0, 1, 2, 3), extra_oracles=(),
